@@ -296,6 +296,14 @@ class Validation:
         validated_gdf[self.GEOMETRY_COLUMN] = all_geoms
         if first_pass:
             self.traces = validated_gdf
+            # The cached nodes, node sets and spatial index were determined
+            # from the traces before possible fixes: reset them so that the
+            # second pass determines them from the fixed traces.
+            self._endpoint_nodes = None
+            self._intersect_nodes = None
+            self._spatial_index = None
+            self._faulty_junctions = None
+            self._vnodes = None
             # Run validation again
             validated_gdf = self.run_validation(
                 first_pass=False, choose_validators=choose_validators
